@@ -181,6 +181,7 @@ Definition is_midi_start (s : str) : bool :=
   starts_with kw_MIDI s && (isspace (at_ s 4) || (at_ s 4 =? 91)).
 
 Definition ty_S := 83. Definition ty_s := 115.
+Definition hd_type_s (l : list av) : Z := match l with v :: _ => av_type v | [] => 0 end.
 
 Definition ret_ident (s : str) : R (str * Z * Z) :=
   match skip_identifier s with Some r => Ok (r, 1, ty_S) | None => Null end.
@@ -204,127 +205,6 @@ Fixpoint skip_blob_bytes (fuel : nat) (s : str) (size : Z) : option (str * Z) :=
                 end
            else Some (s, size)
   end.
-
-(* ---- the syntax checker ------------------------------------------------------ *)
-(* rtosc_skip_next_printed_arg: (position after, skipped, type) *)
-Definition skip_next (fuel : nat) (src : str) (llhs : option str)
-           (follow_ellipsis inside_bundle : bool) : R (str * Z * Z) :=
-  let res :=
-    match src with
-    | [] => Null
-    | c :: _ =>
-      match first_class c with
-      | FC_kw =>
-          if c =? 116 then
-            match skip_word kw_true src with Some r => Ok (r, 1, 84) | None => ret_ident src end
-          else if c =? 102 then
-            match skip_word kw_false src with Some r => Ok (r, 1, 70) | None => ret_ident src end
-          else if c =? 110 then
-            match skip_word kw_nil src with
-            | Some r => Ok (r, 1, 78)
-            | None => match skip_word kw_now src with
-                      | Some r => Ok (r, 1, 116) | None => ret_ident src end
-            end
-          else
-            match skip_word kw_inf src with
-            | Some r => Ok (r, 1, 73)
-            | None => match skip_word kw_immediately src with
-                      | Some r => Ok (r, 1, 116) | None => ret_ident src end
-            end
-      | FC_hash =>
-          if forallb isxdigit (firstn 8 (skipn 1 src)) && Nat.eqb (length (firstn 8 (skipn 1 src))) 8
-          then Ok (skipn 9 src, 1, 114) else Null
-      | FC_quote =>
-          if Nat.ltb (length src) 3 then Null else
-          if at_ src 1 =? 92 then
-            if (at_ src 2 =? 39) && ((at_ src 3 =? 0) || isspace (at_ src 3))
-            then Ok (skipn 3 src, 1, 99)                        (* '\' *)
-            else if (get_escaped_char (at_ src 2) true =? 0) || negb (at_ src 3 =? 39)
-                 then Null else Ok (skipn 4 src, 1, 99)
-          else if at_ src 2 =? 39 then Ok (skipn 3 src, 1, 99) else Null
-      | FC_dq =>
-          match eops (skipn 1 src) (SIn false) with
-          | Ok r => if hd0 r =? 83 then Ok (skipn 1 r, 1, ty_S) else Ok (r, 1, ty_s)
-          | Null => Null | Unmod => Unmod | NoFuel => NoFuel
-          end
-      | FC_M =>
-          if is_midi_start src
-          then match skip_fmt_null fmt_midi src with Some r => Ok (r, 1, 109) | None => Null end
-          else ret_ident src
-      | FC_lb => Unmod
-      | FC_B =>
-          match skip_fmt_null fmt_blob_open src with
-          | Some s1 =>
-              match run_fmt fmt_blob_size s1 [] with
-              | Some ([size], s2) =>
-                  if same_pos s2 s1 then Null else
-                  match skip_blob_bytes (S (length s2)) s2 size with
-                  | Some (s3, remaining) =>
-                      if negb (remaining =? 0) then Null
-                      else if hd0 s3 =? 93 then Ok (skipn 1 s3, 1, 98) else Null
-                  | None => Null
-                  end
-              | _ => Null
-              end
-          | None => ret_ident src
-          end
-      | FC_other =>
-          if is_range_multiplier src then Unmod
-          else if isidstart c then Ok (dropwhile isidchar src, 1, ty_S)
-          else if negb (same_pos (skip_fmt fmt_date src) src) then Unmod
-          else
-            match skip_numeric src with
-            | None => Null
-            | Some (ty, s1) =>
-                let after_num := skip_ws s1 in
-                if hd0 after_num =? 40
-                then if (ty =? 102) || (ty =? 100)
-                     then let s2 := skip_ws (skipn 1 after_num) in
-                          match skip_numeric s2 with
-                          | None => Null
-                          | Some (_, s3) =>
-                              match skip_fmt_null fmt_close_paren s3 with
-                              | Some r => Ok (r, 1, ty) | None => Null end
-                          end
-                     else Null
-                else Ok (s1, 1, ty)
-            end
-      end
-    end in
-  match res with
-  | Ok (r, k, ty) =>
-      if follow_ellipsis && starts_with ellipsis (skip_ws r) then Unmod else res
-  | _ => res
-  end.
-
-(* while ( *src == '%') skip_fmt(&src, "%*[^\n] %n") *)
-Fixpoint skip_comments_ws (fuel : nat) (s : str) : str :=
-  match fuel with
-  | O => s
-  | S f => if hd0 s =? 37 then skip_comments_ws f (skip_fmt fmt_comment_ws s) else s
-  end.
-
-Fixpoint count_loop (fuel : nat) (src : str) (recent : option str) (num : Z) : R (bool * Z) :=
-  match fuel with
-  | O => NoFuel
-  | S f =>
-      if (hd0 src =? 0) || (hd0 src =? 47) then Ok (true, num) else
-      match skip_next (length src) src recent true false with
-      | Ok (r, k, _) =>
-          let s1 := skip_ws r in
-          let s2 := if negb (hd0 s1 =? 0) && negb (isspace (hd0 s1))
-                    then skip_comments_ws (S (length s1)) s1 else s1 in
-          count_loop f s2 (Some src) (num + k)
-      | Null => Ok (false, num + 1)
-      | Unmod => Unmod
-      | NoFuel => NoFuel
-      end
-  end.
-
-(* rtosc_count_printed_arg_vals: (true, n) = n ; (false, n) = -n *)
-Definition count_printed_arg_vals (src : str) : R (bool * Z) :=
-  let s1 := skip_ws src in
-  count_loop (S (length src)) (skip_comments_ws (S (length s1)) s1) None 0.
 
 (* ---- the scanner --------------------------------------------------------------- *)
 Fixpoint scan_blob_bytes (n : nat) (s : str) (acc : str) : option (str * str) :=
@@ -397,72 +277,424 @@ Definition scan_numeric (s : str) : R (av * str) :=
       else Ok (v1, s1)
   end.
 
-(* rtosc_scan_arg_val: (slots written, position after) *)
-Definition scan_arg_val (fuel : nat) (src : str) (before : list av) (follow_ellipsis : bool)
-  : R (list av * str) :=
+(* ---- rtosc_scan_arg_val ---------------------------------------------------------- *)
+(* the recursive calls: src, the slots written before in this list, the
+   args_before argument, follow_ellipsis *)
+Definition scan_t := str -> list av -> Z -> bool -> R (list av * str).
+
+(* type of the element whose slots are vs (a range counts as its element) *)
+Definition elem_type (vs : list av) : Z :=
+  match vs with
+  | VRep _ hd :: r => if hd =? 0 then hd_type_s (skipn 0 r) else hd_type_s (skipn 1 r)
+  | v :: _ => av_type v
+  | [] => 0
+  end.
+
+(* the loop of the '[' case *)
+Fixpoint scan_array_loop (rec : scan_t) (fuel : nat) (src : str) (i : Z) (acc : list av) (arrtype : Z)
+  : R (list av * str * Z) :=
+  match fuel with
+  | O => NoFuel
+  | S f =>
+      if (hd0 src =? 0) || (hd0 src =? 93) then Ok (acc, src, arrtype) else
+      match rec src acc i true with
+      | Ok (vs, r) => scan_array_loop rec f (skip_ws r) (i + 1) (acc ++ vs) (elem_type vs)
+      | Null => Null | Unmod => Unmod | NoFuel => NoFuel
+      end
+  end.
+
+(* everything up to the ellipsis test *)
+Definition scan_core (rec : scan_t) (src : str) : R (list av * str) :=
   let ident s := match parse_identifier s with Some (v, r) => Ok ([v], r) | None => Unmod end in
-  let res :=
-    match src with
-    | [] => Unmod
-    | c :: _ =>
-      match first_class c with
-      | FC_kw =>
-          match skip_word kw_immediately src with Some r => Ok ([VTm 1], r) | None =>
-          match skip_word kw_now src with Some r => Ok ([VTm 1], r) | None =>
-          match skip_word kw_true src with Some r => Ok ([VT], r) | None =>
-          match skip_word kw_false src with Some r => Ok ([VF], r) | None =>
-          match skip_word kw_nil src with Some r => Ok ([VN], r) | None =>
-          match skip_word kw_inf src with Some r => Ok ([VInf], r) | None =>
-          ident src end end end end end end
-      | FC_hash =>
-          match sc_x (skipn 1 src) with
-          | Some (v, _) => Ok ([VR (v mod 2 ^ 32)], skipn 9 src)
-          | None => Unmod
+  match src with
+  | [] => Unmod
+  | c :: _ =>
+    match first_class c with
+    | FC_kw =>
+        match skip_word kw_immediately src with Some r => Ok ([VTm 1], r) | None =>
+        match skip_word kw_now src with Some r => Ok ([VTm 1], r) | None =>
+        match skip_word kw_true src with Some r => Ok ([VT], r) | None =>
+        match skip_word kw_false src with Some r => Ok ([VF], r) | None =>
+        match skip_word kw_nil src with Some r => Ok ([VN], r) | None =>
+        match skip_word kw_inf src with Some r => Ok ([VInf], r) | None =>
+        ident src end end end end end end
+    | FC_hash =>
+        match sc_x (skipn 1 src) with
+        | Some (v, _) => Ok ([VR (v mod 2 ^ 32)], skipn 9 src)
+        | None => Unmod
+        end
+    | FC_quote =>
+        if at_ src 1 =? 92
+        then if negb (at_ src 3 =? 0) && negb (isspace (at_ src 3))
+             then Ok ([VC (get_escaped_char (at_ src 2) true)], skipn 4 src)
+             else Ok ([VC 92], skipn 3 src)
+        else Ok ([VC (at_ src 1)], skipn 3 src)
+    | FC_dq =>
+        match scan_str (skipn 1 src) false [] with
+        | Ok (s, r) => if hd0 r =? 83 then Ok ([VSym (cstr_of s)], skipn 1 r)
+                       else Ok ([VS (cstr_of s)], r)
+        | Null => Null | Unmod => Unmod | NoFuel => NoFuel
+        end
+    | FC_M =>
+        if is_midi_start src
+        then match run_fmt fmt_midi src [] with
+             | Some ([a; b; c'; d], r) => Ok ([VM (a mod 256) (b mod 256) (c' mod 256) (d mod 256)], r)
+             | _ => Unmod
+             end
+        else ident src
+    | FC_lb =>
+        match scan_array_loop rec (S (length src)) (skip_ws (skipn 1 src)) 0 [] 32 with
+        | Ok (elems, r, arrtype) =>
+            if hd0 r =? 93 then Ok (VArr arrtype (Z.of_nat (length elems)) :: elems, skipn 1 r)
+            else Unmod                       (* ++src past the terminator *)
+        | Null => Null | Unmod => Unmod | NoFuel => NoFuel
+        end
+    | FC_B =>
+        match run_fmt (fmt_blob_open ++ fmt_blob_size) src [] with
+        | Some ([n], s1) =>
+            if n <? 0 then Unmod else
+            match scan_blob_bytes (Z.to_nat n) s1 [] with
+            | Some (d, s2) => Ok ([VB d], skipn 1 s2)
+            | None => Unmod
+            end
+        | _ => ident src
+        end
+    | FC_other =>
+        if is_range_multiplier src then
+          (* "%dx%n", then the repeated value with follow_ellipsis = 0 *)
+          match run_fmt [Dd; DLit 120] src [] with
+          | Some ([n], s1) =>
+              match rec s1 [] 0 false with
+              | Ok (vs, r) => Ok (VRep (st32 n) 0 :: vs, r)
+              | Null => Null | Unmod => Unmod | NoFuel => NoFuel
+              end
+          | _ => Unmod
           end
-      | FC_quote =>
-          if at_ src 1 =? 92
-          then if negb (at_ src 3 =? 0) && negb (isspace (at_ src 3))
-               then Ok ([VC (get_escaped_char (at_ src 2) true)], skipn 4 src)
-               else Ok ([VC 92], skipn 3 src)
-          else Ok ([VC (at_ src 1)], skipn 3 src)
-      | FC_dq =>
-          match scan_str (skipn 1 src) false [] with
-          | Ok (s, r) => if hd0 r =? 83 then Ok ([VSym (cstr_of s)], skipn 1 r)
-                         else Ok ([VS (cstr_of s)], r)
+        else if isidstart c then Ok ([VSym (takewhile isidchar src)], dropwhile isidchar src)
+        else if negb (same_pos (skip_fmt fmt_date src) src) then Unmod
+        else match scan_numeric src with
+             | Ok (v, r) => Ok ([v], r)
+             | Null => Null | Unmod => Unmod | NoFuel => NoFuel
+             end
+    end
+  end.
+
+(* the slot k places before the current one *)
+Definition back (before : list av) (k : nat) : option av := nth_error (rev before) (Nat.pred k).
+
+(* the left neighbour the scanner uses for "a b ... c" *)
+Definition scan_llhs (before : list av) (nb : Z) : option av :=
+  match (if 2 <? nb then back before 3 else None) with
+  | Some (VRep num hd) =>
+      if negb (hd =? 0)
+      then match back before 2, back before 1 with
+           | Some delta, Some start => range_arg delta start (num - 1)
+           | _, _ => None end
+      else back before 1
+  | _ => back before 1
+  end.
+
+(* the ellipsis part: vs are the slots of the value just scanned, r the
+   position after it (white space, then "...") *)
+Definition scan_ellipsis (rec : scan_t) (vs : list av) (r : str) (before : list av) (nb : Z)
+  : R (list av * str) :=
+  match vs with
+  | [lhs] =>
+      let s1 := skip_ws (skipn 3 (skip_ws r)) in
+      let infinite := hd0 s1 =? 93 in
+      let rhsr := if infinite then Ok (None, s1)
+                  else match rec s1 [] 0 false with
+                       | Ok ([rv], r2) => Ok (Some rv, r2)
+                       | Ok _ => Unmod
+                       | Null => Null | Unmod => Unmod | NoFuel => NoFuel end in
+      match rhsr with
+      | Ok (rhs, r2) =>
+          let useless_llhs : option (bool * av) :=
+            if nb <? 1 then Some (true, lhs)
+            else match scan_llhs before nb with
+                 | None => None
+                 | Some l =>
+                     if negb (types_match (av_type l) (av_type lhs)) then Some (true, l)
+                     else match av_cmp_single l lhs with
+                          | Some c => Some (c =? 0, l)
+                          | None => None end
+                 end in
+          match useless_llhs with
+          | None => Unmod
+          | Some (useless, llhs) =>
+              if infinite && useless then Ok ([VRep 0 0; lhs], r2)
+              else match delta_from_arg_vals llhs lhs rhs useless with
+                   | None => Unmod
+                   | Some (num, delta) =>
+                       if infinite && (num =? -1) then Ok ([VRep 0 0; lhs], r2)
+                       else Ok ([VRep num 1; delta; lhs], r2)
+                   end
+          end
+      | Null => Null | Unmod => Unmod | NoFuel => NoFuel
+      end
+  | _ => Unmod
+  end.
+
+(* rtosc_scan_arg_val: (slots written, position after) *)
+Fixpoint scan_arg_val (fuel : nat) (src : str) (before : list av) (nb : Z) (follow_ellipsis : bool)
+  : R (list av * str) :=
+  match fuel with
+  | O => NoFuel
+  | S f =>
+      match scan_core (scan_arg_val f) src with
+      | Ok (vs, r) =>
+          if follow_ellipsis && starts_with ellipsis (skip_ws r)
+          then scan_ellipsis (scan_arg_val f) vs r before nb
+          else Ok (vs, r)
+      | e => e
+      end
+  end.
+
+(* one value, as the checker uses the scanner *)
+Definition scan1 (fuel : nat) (src : str) : option av :=
+  match scan_arg_val fuel src [] 0 false with
+  | Ok ([v], _) => Some v
+  | _ => None
+  end.
+
+(* ---- the syntax checker ------------------------------------------------------ *)
+Definition skip_t := str -> option str -> bool -> bool -> R (str * Z * Z).
+
+(* the loop of the '[' case: (position, skipped, array type) *)
+Fixpoint skip_array_loop (rec : skip_t) (fuel : nat) (src : str) (recent : option str)
+         (skipped arraytype : Z) : R (str * Z) :=
+  match fuel with
+  | O => NoFuel
+  | S f =>
+      if (hd0 src =? 0) || (hd0 src =? 93) then Ok (src, skipped) else
+      match rec src recent true true with
+      | Ok (r, k, ty) =>
+          if (arraytype =? 0) || arraytypes_match arraytype ty
+          then skip_array_loop rec f (skip_ws r) (Some src) (skipped + k)
+                               (if arraytype =? 0 then ty else arraytype)
+          else Null
+      | Null => Null | Unmod => Unmod | NoFuel => NoFuel
+      end
+  end.
+
+(* strstr(llhssrc, "...") , skipping the "(...+" of a time tag *)
+Fixpoint find_ellipsis (s : str) (lastns : Z) : option str :=
+  match s with
+  | [] => None
+  | c :: r =>
+      if starts_with ellipsis s && negb (lastns =? 40) then Some s
+      else find_ellipsis r (if isspace c then lastns else c)
+  end.
+
+Definition after_x (s : str) : str := skipn 1 (dropwhile (fun c => negb (c =? 120)) s).
+
+(* everything up to the ellipsis test: (position, skipped, type, deltaless_range_type) *)
+Definition skip_core (rec : skip_t) (src : str) (inside_bundle : bool) : R (str * Z * Z * Z) :=
+  let ret (x : R (str * Z * Z)) : R (str * Z * Z * Z) :=
+    match x with Ok (r, k, ty) => Ok (r, k, ty, 0) | Null => Null | Unmod => Unmod | NoFuel => NoFuel end in
+  match src with
+  | [] => Null
+  | c :: _ =>
+    match first_class c with
+    | FC_kw => ret (
+        if c =? 116 then
+          match skip_word kw_true src with Some r => Ok (r, 1, 84) | None => ret_ident src end
+        else if c =? 102 then
+          match skip_word kw_false src with Some r => Ok (r, 1, 70) | None => ret_ident src end
+        else if c =? 110 then
+          match skip_word kw_nil src with
+          | Some r => Ok (r, 1, 78)
+          | None => match skip_word kw_now src with
+                    | Some r => Ok (r, 1, 116) | None => ret_ident src end
+          end
+        else
+          match skip_word kw_inf src with
+          | Some r => Ok (r, 1, 73)
+          | None => match skip_word kw_immediately src with
+                    | Some r => Ok (r, 1, 116) | None => ret_ident src end
+          end)
+    | FC_hash => ret (
+        if forallb isxdigit (firstn 8 (skipn 1 src)) && Nat.eqb (length (firstn 8 (skipn 1 src))) 8
+        then Ok (skipn 9 src, 1, 114) else Null)
+    | FC_quote => ret (
+        if Nat.ltb (length src) 3 then Null else
+        if at_ src 1 =? 92 then
+          if (at_ src 2 =? 39) && ((at_ src 3 =? 0) || isspace (at_ src 3))
+          then Ok (skipn 3 src, 1, 99)                        (* the mistyped backslash *)
+          else if (negb (at_ src 2 =? 48) && (get_escaped_char (at_ src 2) true =? 0))
+                  || negb (at_ src 3 =? 39)
+               then Null else Ok (skipn 4 src, 1, 99)
+        else if at_ src 2 =? 39 then Ok (skipn 3 src, 1, 99) else Null)
+    | FC_dq => ret (
+        match eops (skipn 1 src) (SIn false) with
+        | Ok r => if hd0 r =? 83 then Ok (skipn 1 r, 1, ty_S) else Ok (r, 1, ty_s)
+        | Null => Null | Unmod => Unmod | NoFuel => NoFuel
+        end)
+    | FC_M => ret (
+        if is_midi_start src
+        then match skip_fmt_null fmt_midi src with Some r => Ok (r, 1, 109) | None => Null end
+        else ret_ident src)
+    | FC_lb =>
+        match skip_array_loop rec (S (length src)) (skip_ws (skipn 1 src)) None 1 0 with
+        | Ok (r, k) => if hd0 r =? 93 then Ok (skipn 1 r, k, 97, 0) else Null
+        | Null => Null | Unmod => Unmod | NoFuel => NoFuel
+        end
+    | FC_B => ret (
+        match skip_fmt_null fmt_blob_open src with
+        | Some s1 =>
+            match run_fmt fmt_blob_size s1 [] with
+            | Some ([size], s2) =>
+                if same_pos s2 s1 then Null else
+                match skip_blob_bytes (S (length s2)) s2 size with
+                | Some (s3, remaining) =>
+                    if negb (remaining =? 0) then Null
+                    else if hd0 s3 =? 93 then Ok (skipn 1 s3, 1, 98) else Null
+                | None => Null
+                end
+            | _ => Null
+            end
+        | None => ret_ident src
+        end)
+    | FC_other =>
+        if is_range_multiplier src then
+          match rec (after_x src) None false inside_bundle with
+          | Ok (r, k, ty) => Ok (r, 1 + k, 45, ty)
           | Null => Null | Unmod => Unmod | NoFuel => NoFuel
           end
-      | FC_M =>
-          if is_midi_start src
-          then match run_fmt fmt_midi src [] with
-               | Some ([a; b; c'; d], r) => Ok ([VM (a mod 256) (b mod 256) (c' mod 256) (d mod 256)], r)
-               | _ => Unmod
-               end
-          else ident src
-      | FC_lb => Unmod
-      | FC_B =>
-          match run_fmt (fmt_blob_open ++ fmt_blob_size) src [] with
-          | Some ([n], s1) =>
-              if n <? 0 then Unmod else
-              match scan_blob_bytes (Z.to_nat n) s1 [] with
-              | Some (d, s2) => Ok ([VB d], skipn 1 s2)
-              | None => Unmod
-              end
-          | _ => ident src
-          end
-      | FC_other =>
-          if is_range_multiplier src then Unmod
-          else if isidstart c then Ok ([VSym (takewhile isidchar src)], dropwhile isidchar src)
-          else if negb (same_pos (skip_fmt fmt_date src) src) then Unmod
-          else match scan_numeric src with
-               | Ok (v, r) => Ok ([v], r)
-               | Null => Null | Unmod => Unmod | NoFuel => NoFuel
-               end
-      end
-    end in
-  match res with
-  | Ok (vs, r) => if follow_ellipsis && starts_with ellipsis (skip_ws r) then Unmod else res
-  | _ => res
+        else ret (
+        if isidstart c then Ok (dropwhile isidchar src, 1, ty_S)
+        else if negb (same_pos (skip_fmt fmt_date src) src) then Unmod
+        else
+          match skip_numeric src with
+          | None => Null
+          | Some (ty, s1) =>
+              let after_num := skip_ws s1 in
+              if hd0 after_num =? 40
+              then if (ty =? 102) || (ty =? 100)
+                   then let s2 := skip_ws (skipn 1 after_num) in
+                        match skip_numeric s2 with
+                        | None => Null
+                        | Some (_, s3) =>
+                            match skip_fmt_null fmt_close_paren s3 with
+                            | Some r => Ok (r, 1, ty) | None => Null end
+                        end
+                   else Null
+              else Ok (s1, 1, ty)
+          end)
+    end
   end.
+
+Definition numeric_range_type (t : Z) : bool :=
+  (t =? 99) || (t =? 105) || (t =? 104) || (t =? 102) || (t =? 100) || (t =? 84) || (t =? 70).
+
+(* the ellipsis part of the checker.  old_src: start of the value, r: position
+   after it, ty / dlt: its type and deltaless_range_type, k: skipped so far *)
+Definition skip_ellipsis (rec : skip_t) (sfuel : nat) (old_src r : str) (k ty dlt : Z)
+           (llhs : option str) (inside_bundle : bool) : R (str * Z * Z) :=
+  let ell := skip_ws r in
+  let lhssrc := if is_range_multiplier old_src then after_x old_src else old_src in
+  let lhstype := if dlt =? 0 then ty else dlt in
+  let rhssrc := skip_ws (skipn 3 ell) in
+  let numeric := numeric_range_type lhstype in
+  let infinite := hd0 rhssrc =? 93 in
+  let rhsr : R (str * Z * option av) :=
+    if infinite then Ok (rhssrc, lhstype, None)
+    else if negb numeric then Null
+    else match rec rhssrc None false inside_bundle with
+         | Ok (e, _, rty) => Ok (e, rty, scan1 sfuel rhssrc)
+         | Null => Null | Unmod => Unmod | NoFuel => NoFuel end in
+  match rhsr with
+  | Ok (endsrc, rhstype, rhsarg) =>
+      if negb (lhstype =? rhstype) then Null else
+      if negb infinite && (match rhsarg with None => true | Some _ => false end) then Unmod else
+      let lhsarg := if numeric then scan1 sfuel lhssrc else None in
+      (* is llhs given and useful?  Some (useless, llhsarg) *)
+      let ul : R (bool * option av) :=
+        match llhs with
+        | None => Ok (true, None)
+        | Some l0 =>
+            match find_ellipsis l0 0 with
+            | None => Unmod
+            | Some ne =>
+                let l1 := if Nat.ltb (length ell) (length ne) then skip_ws (skipn 3 ne)
+                          else if is_range_multiplier l0 then after_x l0 else l0 in
+                match rec l1 None false inside_bundle with
+                | Ok (_, _, lty) =>
+                    if types_match lty lhstype
+                    then match scan1 sfuel l1, lhsarg with
+                         | Some la, Some lh =>
+                             match av_cmp_single la lh with
+                             | Some c => Ok (c =? 0, Some la)
+                             | None => Unmod end
+                         | _, _ => Unmod end
+                    else Ok (true, None)
+                | Null => Ok (true, None)      (* llhstype stays what it was *)
+                | Unmod => Unmod | NoFuel => NoFuel
+                end
+            end
+        end in
+      match ul with
+      | Ok (useless, llhsarg) =>
+          if infinite && (useless || negb numeric) then Ok (endsrc, k + 1, 45)
+          else
+            match lhsarg, (if useless then lhsarg else llhsarg) with
+            | Some lh, Some la =>
+                match delta_from_arg_vals la lh rhsarg useless with
+                | None => Unmod
+                | Some (num, _) =>
+                    if num =? -1 then (if infinite then Ok (endsrc, k + 1, 45) else Null)
+                    else Ok (endsrc, k + 2, 45)
+                end
+            | _, _ => Unmod
+            end
+      | Null => Null | Unmod => Unmod | NoFuel => NoFuel
+      end
+  | Null => Null | Unmod => Unmod | NoFuel => NoFuel
+  end.
+
+(* rtosc_skip_next_printed_arg: (position after, skipped, type) *)
+Fixpoint skip_next (fuel : nat) (src : str) (llhs : option str)
+         (follow_ellipsis inside_bundle : bool) : R (str * Z * Z) :=
+  match fuel with
+  | O => NoFuel
+  | S f =>
+      match skip_core (skip_next f) src inside_bundle with
+      | Ok (r, k, ty, dlt) =>
+          if follow_ellipsis && starts_with ellipsis (skip_ws r)
+          then skip_ellipsis (skip_next f) f src r k ty dlt llhs inside_bundle
+          else Ok (r, k, ty)
+      | Null => Null | Unmod => Unmod | NoFuel => NoFuel
+      end
+  end.
+
+(* while ( *src == '%') skip_fmt(&src, "%*[^\n] %n") *)
+Fixpoint skip_comments_ws (fuel : nat) (s : str) : str :=
+  match fuel with
+  | O => s
+  | S f => if hd0 s =? 37 then skip_comments_ws f (skip_fmt fmt_comment_ws s) else s
+  end.
+
+Fixpoint count_loop (fuel : nat) (src : str) (recent : option str) (num : Z) : R (bool * Z) :=
+  match fuel with
+  | O => NoFuel
+  | S f =>
+      if (hd0 src =? 0) || (hd0 src =? 47) then Ok (true, num) else
+      match skip_next (length src) src recent true false with
+      | Ok (r, k, _) =>
+          let s1 := skip_ws r in
+          let s2 := if negb (hd0 s1 =? 0) && negb (isspace (hd0 s1))
+                    then skip_comments_ws (S (length s1)) s1 else s1 in
+          count_loop f s2 (Some src) (num + k)
+      | Null => Ok (false, num + 1)
+      | Unmod => Unmod
+      | NoFuel => NoFuel
+      end
+  end.
+
+(* rtosc_count_printed_arg_vals: (true, n) = n ; (false, n) = -n *)
+Definition count_printed_arg_vals (src : str) : R (bool * Z) :=
+  let s1 := skip_ws src in
+  count_loop (S (length src)) (skip_comments_ws (S (length s1)) s1) None 0.
 
 (* do { skip " "; while ( *src == '%') skip "%*[^\n]"; } while(isspace( *src)) *)
 Fixpoint skip_ws_comments (fuel : nat) (s : str) : str :=
@@ -490,7 +722,7 @@ Fixpoint scan_loop (fuel : nat) (src : str) (i n : Z) (acc : list av) : R (list 
   | O => NoFuel
   | S f =>
       if n <=? i then Ok (acc, src) else
-      match scan_arg_val (length src) src acc true with
+      match scan_arg_val (length src) src acc i true with
       | Ok (vs, r) =>
           scan_loop f (skip_ws_comments (S (length r)) r) (i + slots_offset vs) n (acc ++ vs)
       | Null => Null | Unmod => Unmod | NoFuel => NoFuel
@@ -499,4 +731,25 @@ Fixpoint scan_loop (fuel : nat) (src : str) (i n : Z) (acc : list av) : R (list 
 
 Definition scan_arg_vals (src : str) (n : Z) : R (list av * str) :=
   scan_loop (S (Z.to_nat n)) src 0 n [].
+
+(* rtosc_count_printed_arg_vals_of_msg: Ok (true, n) = n, (false, n) = -n;
+   the empty message is INT_MIN, modelled as (false, 2^31) *)
+Definition count_printed_arg_vals_of_msg (msg : str) : R (bool * Z) :=
+  let s1 := skip_ws msg in
+  let s2 := skip_comments_ws (S (length s1)) s1 in
+  if hd0 s2 =? 47
+  then count_printed_arg_vals (dropwhile (fun c => negb (isspace c)) s2)
+  else if hd0 s2 =? 0 then Ok (false, 2 ^ 31) else Ok (false, 1).
+
+(* rtosc_scan_message (address buffer large enough): (address, slots, position after) *)
+Definition scan_message (src : str) (n : Z) : R (str * list av * str) :=
+  let s1 := skip_ws src in
+  let s2 := skip_comments_ws (S (length s1)) s1 in
+  if negb (hd0 s2 =? 47) then Unmod else
+  let addr := takewhile (fun c => negb (isspace c)) s2 in
+  let s3 := skip_ws (dropwhile (fun c => negb (isspace c)) s2) in
+  match scan_arg_vals s3 n with
+  | Ok (vs, r) => Ok (addr, vs, r)
+  | Null => Null | Unmod => Unmod | NoFuel => NoFuel
+  end.
 End Recognisers.
